@@ -287,7 +287,36 @@ func (w *routeWorld) malform(rt *swaptypes.Route) string {
 			leaves = append(leaves, n)
 		}
 	}
-	switch r.N(10) {
+	switch r.N(12) {
+	case 10, 11: // a parallel branch that is a perfectly executable route of its own, but to (or from) ANOTHER denom than its parent
+		if len(pars) > 0 {
+			pn := pars[r.N(len(pars))]
+			p := pn.Strategy.(*swaptypes.Route_Parallel).Parallel
+			usedIds := map[uint64]bool{}
+			for _, l := range leaves {
+				usedIds[l.Strategy.(*swaptypes.Route_Pool).Pool.PoolId] = true
+			}
+			for _, pl := range w.pools {
+				if usedIds[pl.id] {
+					continue
+				}
+				var other string
+				switch {
+				case pl.base == pn.DenomIn && pl.quote != pn.DenomOut:
+					other = pl.quote
+				case pl.quote == pn.DenomIn && pl.base != pn.DenomOut:
+					other = pl.base
+				default:
+					continue
+				}
+				if len(p.Routes) == 0 {
+					break
+				}
+				p.Routes[r.N(len(p.Routes))] = swaptypes.Route{DenomIn: pn.DenomIn, DenomOut: other,
+					Strategy: &swaptypes.Route_Pool{Pool: &swaptypes.RoutePool{PoolId: pl.id}}}
+				return "branchdenom"
+			}
+		}
 	case 0, 1: // reused pool
 		if len(leaves) >= 2 {
 			i := r.N(len(leaves))
